@@ -130,7 +130,7 @@ def formats_obs_term(case, st, val):
 
 
 def formats_tie(n_quick=150, n_thorough=2500):
-    prof = dict(PROFILES['C03'], p_window=0.0, p_include=0.6, p_org_before_include=0.6)
+    prof = dict(PROFILES['C03'], p_window=0.0, p_include=0.6, p_org_before_include=0.6, p_bigfill=0.25)
     prof['w'] = dict(prof['w'], fill=8, mute=6, align=4, org=5, memzone=4)
 
     def gen(rng, tier):
@@ -143,6 +143,10 @@ def formats_tie(n_quick=150, n_thorough=2500):
             c['opts'] = {'start': 0, 'end': None, 'fill': rng.choice([0, 0, 0xEE, 0xFF])}
             if rng.random() < 0.3:
                 c['opts']['end'] = c['cfg']['origin'] + rng.randint(0, 12)
+            if rng.random() < 0.25:
+                c['opts']['start'] = c['cfg']['origin'] + rng.randint(1, 9)         # often inside a multi-byte line
+                if c['opts']['end'] is not None and c['opts']['end'] < c['opts']['start']:
+                    c['opts']['end'] = c['opts']['start'] + 5
             out.append(c)
         return out
     return Tie(name='formats', imports=['Base', 'Program', 'Formats'], run_def='run_formats', eqb='obs_formats_eqb',
@@ -201,6 +205,8 @@ def _determinism_check(case):
         env_extra = {}
         if k % 2 == 1:
             env_extra = {'ZZ_VERIF_NOISE': 'x' * rng.randint(1, 30), 'LC_NUMERIC': 'C', 'TERM': 'dumb', 'COLUMNS': str(rng.randint(20, 200))}
+        if case.get('det_env'):
+            env_extra = dict(env_extra, **case['det_env'][k % len(case['det_env'])])
         r = run_cli_variant(case, seed, 'td' if k % 2 == 0 else 'src', env_extra, ['asis', 'rev', 'dup'][k % 3], fmt)
         if ref is None:
             ref = r
@@ -455,6 +461,67 @@ def working_directory_cases(rng, n):
     return out
 
 
+EMPTY_ORDER_ISA = '''
+description: verif implied operands
+general:
+  address_size: 16
+  endian: big
+  registers: [a]
+  identifier: {name: verif-implied, version: "1.0.0"}
+instructions:
+  inp:
+    bytecode: {value: 13, size: 4}
+    operands:
+      count: 2
+      specific_operands:
+        NAME1:
+          list:
+            acc: {type: empty, bytecode: {value: 0, size: 4}}
+            port: {type: enumeration, bytecode: {size: 8, value_dict: {timer: 32, uart: 33}}}
+        NAME2:
+          list:
+            acc: {type: empty, bytecode: {value: 4, size: 4}}
+            num: {type: numeric, argument: {size: 8, byte_align: true}}
+        NAME3:
+          list:
+            acc: {type: empty, bytecode: {value: 8, size: 4}}
+            adr: {type: address, argument: {size: 16, byte_align: true}}
+  nop:
+    bytecode: {value: 0, size: 8}
+'''
+
+
+def implied_operand_order_cases(rng, n):
+    """several listed operand combinations that contain an implied (`empty`) operand and accept the same text: the one listed
+    first in the instruction set file is used, under every hash seed (combination names of many shapes)"""
+    out = []
+    for _ in range(n):
+        names = rng.sample(['acc_port', 'acc_imm', 'acc_addr', 'a', 'zz', 'port_form', 'n1', 'by_number', 'x_long_name_here', 'k', 'imm8', 'q7'], 3)
+        y = EMPTY_ORDER_ISA
+        for i, nm in enumerate(names):
+            y = y.replace(f'NAME{i + 1}:', nm + ':')
+        stmts = [['other_text', 'timer = 7'], ['other_text', 'inp timer'], ['other_text', 'nop'], ['other_text', 'inp 9']]
+        out.append({'cfg': {'addr_bits': 16, 'cli': []}, 'isa_yaml': y, 'files': [{'name': 'main.asm', 'dir': 'src', 'stmts': stmts}],
+                    'include_dirs': [], 'extra_files': [], 'opts': {'start': 0, 'end': None, 'fill': 0},
+                    'det_seed': rng.randrange(1 << 30), 'det_runs': 8, 'isa': {'macros': {}}})
+    return out
+
+
+def interpreter_option_cases(rng, n):
+    """a value that does not fit a field which is not a whole number of bytes wide: rejected whatever options the interpreter
+    itself is run with (python -O / PYTHONOPTIMIZE strips assert statements)"""
+    from .sysgen import num
+    out = []
+    for k in range(n):
+        base = dict(addr_bits=16, endian='big', origin=0, page=1, terminator=0, embedded=False, zones=[], consts=[], data=[], syms=[], cli=[])
+        bad = [['instr', 'lda', [num(rng.choice([0x1000, 0x1234, -2049]))]], ['instr', 'bset', [num(rng.choice([8, 9, -1]))]]][k % 2]
+        stmts = [['data', 1, [num(1)]], ['instr', 'lda', [num(0x123)]], bad, ['data', 1, [num(2)]]]
+        out.append({'cfg': base, 'files': [{'name': 'main.asm', 'dir': 'src', 'stmts': stmts}], 'include_dirs': [], 'extra_files': [],
+                    'opts': {'start': 0, 'end': None, 'fill': 0}, 'det_seed': rng.randrange(1 << 30), 'det_runs': 4, 'isa': {'macros': {}},
+                    'det_env': [{}, {'PYTHONOPTIMIZE': '1'}, {'PYTHONOPTIMIZE': '2'}, {'PYTHONDONTWRITEBYTECODE': '1'}]})
+    return out
+
+
 def isa_determinism_oracle(n_quick=25, n_thorough=400):
     def gen(rng, tier):
         from . import sysisa
@@ -468,7 +535,8 @@ def isa_determinism_oracle(n_quick=25, n_thorough=400):
         return (out + dotted_cases(rng, 12 if q else 150) + mnemonic_family_cases(rng, 12 if q else 150)
                 + symlink_include_cases(rng, 4 if q else 40) + multi_dir_cases(rng, 6 if q else 60)
                 + ambiguous_name_cases(rng, 8 if q else 60) + redefined_symbol_cases(rng, 8 if q else 80)
-                + operand_order_cases(rng, 10 if q else 100) + working_directory_cases(rng, 4 if q else 30))
+                + operand_order_cases(rng, 10 if q else 100) + working_directory_cases(rng, 4 if q else 30)
+                + implied_operand_order_cases(rng, 8 if q else 80) + interpreter_option_cases(rng, 4 if q else 20))
     return Oracle(name='determinism_isa', gen=gen, check=_isa_determinism_check, nontrivial=lambda c: True,
                   classify=lambda c: 'isa', timeout=600)
 
@@ -599,6 +667,7 @@ def failclosed_oracle(n_quick=120, n_thorough=2500):
         # text left over behind a well-formed operand, made of characters that belong to no token of the expression language
         forms += [('unrecognised text after an operand', ['other_text', t]) for t in (
             'ldi a, 5!', 'ldi a, 5 @', 'ldi a, 7 ~', 'jmp $0100?', 'ldi a, (1+2)*2`', 'lda 3 \\', 'ldi a, 5 !', 'jmp 5#')]
+        forms += [('unknown instruction', ['other_text', t]) for t in ('jmp($0100)', 'lda$10', "lda'a'", 'jmp-5')]
         # a condition the directive patterns cannot read as a whole (it used to be read from its front part, opening a block)
         forms += [('malformed condition', ['other_text', t]) for t in ('#if 1==1', '#if 2 == 2 junk(', '#if 1 !=0')]
         forms += [('value does not fit', st) for st in (['instr', 'ldi', ['a', num(256)]], ['instr', 'ldi', ['a', num(-129)]],
